@@ -21,6 +21,8 @@
     `trso_no_usable_surrogate_no_error`      no exception on such inputs, whatever the separation test
     `identifyUsesLine6_of_no_declared`       the hypothesis is implied by the one of the `_partial` theorems of Props/C05
                                              (no experiment declared), so these theorems subsume them
+    `trso_sound_no_usable_surrogate`         the estimand of such a run denotes `P(Y | do(X))` in every compatible model
+    `trso_no_usable_surrogate_den_eq_id`     ... hence the function the ID estimand denotes
 -/
 import Y0.Props.C05
 import Y0.Lemmas.TrsoUse
@@ -238,6 +240,66 @@ theorem identifyUsesLine6_of_no_declared (sep : SepTest)
   obtain ⟨hinv, _, hc⟩ := initial_inv hG hA (noT_of_small hsmall) hsmall hv hY hg
   rw [identifyUsesLine6_eq hv hg]
   exact usesLine6_false_of_noSurr sep _ _ _ G hinv (initial_noSurr hZ) hc
+
+/-! ### denotations: the estimand of such a run is `P(Y | do(X))`, hence the function the ID estimand denotes -/
+
+/-- the full invariant does not read the declared experiments either (target phase) -/
+theorem QInv.clearSurr_target {M : Nat} {q : Query} {G : MG Name} (h : QInv M q G) (ha : q.active = [])
+    (hd : q.domain = targetPop) (hT : ∀ v ∈ G.nodes, isTnode v = false) : QInv M (clearSurr q) G :=
+  ⟨h.look, h.wf, h.rk, h.tpl, h.tbi, h.Yin, h.YT, h.Yne, h.Xin, h.XY, h.sub, h.size, Or.inl ⟨ha, hd, hT, Or.inl rfl⟩⟩
+
+/-- **With no usable surrogate experiment the TRSO estimand is sound against every single model**: for every validated
+input over a well-formed acyclic graph of user variables (names below 100), with non-empty outcomes, any declared
+experiments and any separation test, if line 6 finds no usable domain during the run then every estimand
+`identify_target_outcomes` returns denotes `P(Y | do(X))` (`Scm.doProb`) in EVERY positive semi-Markovian model
+compatible with the graph, at every assignment.  (Same proof as `trso_sound_no_surrogate_core`, on the cleared query.) -/
+theorem trso_sound_no_usable_surrogate (sep : SepTest) (G : MG Name) (hG : G.WF) (hA : G.Acyclic)
+    (hsmall : ∀ v ∈ G.nodes, v < 100) (Y X : List Name) (outcomes interventions : List (Pop × List Name))
+    (hv : validInput G Y X outcomes interventions = true) (hY : Y ≠ [])
+    (hU : identifyUsesLine6 sep G Y X outcomes interventions = false)
+    (e : Expr) (h : identifyTargetOutcomes sep G Y X outcomes interventions = .ok (some e))
+    (M : Scm) (hM : M.Compatible G) (σ' σ : Val) :
+    den (M.env G) σ' e σ = M.doProb G X Y σ := by
+  obtain ⟨graphs, hg⟩ := surrogateToTransport_ok hG hv
+  obtain ⟨hinv0, _, _, _⟩ := qinitial_inv hG hA hsmall hv hY hg
+  rw [identify_eq_trso_cleared hv hg hU] at h
+  have hr : G.Ranked := MG.acyclic_ranked hG hA
+  have hsmall' : ∀ v ∈ G.nodes, v < 200 := fun v hv => Nat.lt_trans (hsmall v hv) (by decide)
+  have hnoT : ∀ v ∈ G.nodes, isTnode v = false := noT_of_small hsmall'
+  have hinv := hinv0.clearSurr_target rfl rfl hnoT
+  set q := clearSurr (initialQuery G Y X graphs interventions) with hqdef
+  let pops : List Name := targetPop :: graphs.map (fun p => p.1)
+  have hcoinMem : TargetClass G hG hr pops σ' (famCtx (constFam coinScm G) G pops σ'
+      (constFam_ok (coinScm_compatible G) hG hr _)) := ⟨coinScm, coinScm_compatible G, rfl⟩
+  have hcoin : Coin (famCtx (constFam coinScm G) G pops σ' (constFam_ok (coinScm_compatible G) hG hr _)) :=
+    coin_famCtx G hG hr pops σ'
+  have hsub : ∀ p ∈ graphs, RSub G p.2 := by
+    intro p hp
+    rcases (surrogateToTransport_spec hG hv hg).2 p hp with rfl | ⟨_, ns, hns, hp2⟩
+    · exact rsub_self
+    · rw [hp2]; exact rsub_ctd hsmall hns
+  have hI : Inv (TargetClass G hG hr pops σ') q G := by
+    rintro ctx ⟨M', hM', rfl⟩
+    exact famCtx_initial σ' (constFam_ok hM' hG hr _) (List.mem_cons_self) rfl hnoT Y X graphs [] hsub
+      (fun p _ v hne => absurd rfl hne) (fun p hp => List.mem_cons_of_mem _ (List.mem_map_of_mem hp))
+  have hK : KNoSurr q := ⟨noSurr_nil rfl, rfl⟩
+  obtain ⟨hgood, _, hden⟩ := trsoF_sound_engine sep (TargetClass G hG hr pops σ') hcoinMem hcoin KNoSurr kNoSurr_stable _
+    (h67_noSurr sep _ _) q.fuel q G hinv hI hK e h _ ⟨M, hM, rfl⟩
+  rw [show M.env G = (constFam M G).env from rfl, den_eq_denL_of_clean _ σ' hgood.1 σ]
+  exact (hden σ).trans (spec_eq_doProb M G hnoT X Y σ)
+
+/-- **... and it is the function the ID estimand denotes** (with `trso_no_usable_surrogate_iff_id`: the clause "when no
+surrogate experiment is usable it returns an estimand exactly when ID does", verdict and value) -/
+theorem trso_no_usable_surrogate_den_eq_id {topo : MG Name → Except Err (List Name)} (ts : TopoSound topo) (sep : SepTest)
+    (G : MG Name) (hG : G.WF) (hA : G.Acyclic) (hsmall : ∀ v ∈ G.nodes, v < 100) (Y X : List Name)
+    (outcomes interventions : List (Pop × List Name)) (hv : validInput G Y X outcomes interventions = true) (hY : Y ≠ [])
+    (hU : identifyUsesLine6 sep G Y X outcomes interventions = false) (e e' : Expr)
+    (h : identifyTargetOutcomes sep G Y X outcomes interventions = .ok (some e)) (h' : identify topo G X Y = .ok e')
+    (M : Scm) (hM : M.Compatible G) (σ' σ : Val) :
+    den (M.env G) σ' e σ = den (M.env G) σ' e' σ := by
+  obtain ⟨hYin, _, _, _, hXY, _, _⟩ := validInput_spec hv
+  rw [trso_sound_no_usable_surrogate sep G hG hA hsmall Y X outcomes interventions hv hY hU e h M hM σ' σ,
+    id_sound ts G X Y ⟨hG, MG.acyclic_ranked hG hA, hYin, hY, hXY⟩ e' h' M hM σ' σ]
 
 /-! ### non-vacuity -/
 
